@@ -113,6 +113,10 @@ class PathModel(ClassModel):
 
     def m___truediv__(self, I, p, other):
         o = other if isinstance(other, SV) else lift(other)
+        if o.typ.kind == 'Opt':
+            from pyvc.values import opt_is_none, opt_get
+            I.require(z3.Not(opt_is_none(o)), 'TypeError', 'Path / None')
+            o = opt_get(o)
         if o.typ.kind != 'Str':
             o = I.world.lib.b_str(I, o)
         return I.alloc('Path', {'s': SV(STR, z3.Concat(I.getfield(p, 's').t, z3.StringVal('/'), o.t))})
@@ -299,3 +303,60 @@ def _replay_persist(name, inp):
         fl = out['failures'][0]
         return {'reproduced': True, 'observed': fl['observed'], 'input_found': fl['input'], 'by': 'native persisted-environments sweep'}
     return {'reproduced': False, 'note': 'native sweep found no failing input'}
+
+
+# ---------------------------------------------------------------------------------------
+# write_env: one iteration over env.items()
+ENTRY2 = 'Map[Str,Ref:Val]'
+DICT2 = f'Map[Ref:Name,{ENTRY2}]'
+
+
+class EnvDict2(EnvDict):
+    fields = {'dictionary': DICT2}
+
+    def m_to_file(self, I, env, path, *, task_name=None, fmt='pickle'):
+        ev(I, 'to_file', path, task_name)
+        return None
+
+
+def c_write_env():
+    return Contract(COMMONF, 'write_env', params={'env': 'Obj:Env', 'filename': 'Opt[Str]', 'fmt': 'Str'}, signals={},
+                    loops={0: LoopSpec('for (task_name, subenv) in env.items()', ['same(env.dictionary, old(env.dictionary))'],
+                                       vars={'written_files': 'Seq[Str]', 'task_file': 'Str'})})
+
+
+def write_env_step(I, scope, ordinal):
+    p = I.path
+    L = f'{COMMONF}::write_env'
+    calls = [e for e in I.trace if e[0] == 'to_file']
+    sub = scope.lookup('subenv')
+    name = scope.lookup('task_name')
+    has_dir = I.spec("'output_dir' in subenv", scope)
+    if len(calls) == 0:
+        p.oblige(f'{L}::inv-step::C14-every-entry-with-an-output-dir-is-written-whatever-its-status', z3.Not(has_dir), kind='inv-step',
+                 meta={'expr': "an entry is skipped only when it has no 'output_dir' (a FAILED entry must overwrite the file of an earlier DONE one)"})
+        return
+    p.oblige(f'{L}::inv-step::C14-one-file-per-entry', len(calls) == 1, kind='inv-step', meta={'expr': 'at most one to_file per entry'})
+    path, tname = calls[0][1], calls[0][2]
+    p.oblige(f'{L}::inv-step::C14-only-entries-with-an-output-dir-are-written', has_dir, kind='inv-step', meta={'expr': "to_file only for entries with 'output_dir'"})
+    p.oblige(f'{L}::inv-step::C14-the-file-holds-the-entry-of-that-task', isinstance(tname, SV) and tname.t.eq(name.t), kind='inv-step',
+             meta={'expr': 'to_file(..., task_name=task_name)'})
+    fname = scope.lookup('filename')
+    from pyvc.values import opt_get
+    od = I.world.lib.b_str(I, SV(parse_type_('Ref:Val'), map_val(sub)[z3.StringVal('output_dir')]))
+    want = z3.Concat(od.t, z3.StringVal('/'), opt_get(fname).t)
+    p.oblige(f'{L}::inv-step::C14-the-file-is-output_dir-slash-filename', isinstance(path, SV) and path.t == want, kind='inv-step',
+             meta={'expr': "the file is str(Path(subenv['output_dir']) / filename)"})
+
+
+def write_env_stmt(I, st, scope):
+    # the trace of one iteration starts at the first statement of the loop body
+    if isinstance(st, ast.If) and 'output_dir' in ast.unparse(st.test):
+        I.trace = []
+
+
+def unit_write_env(tier, pid):
+    w = make_file_world()
+    w.class_models['Env'] = EnvDict2(w)
+    res = verify_function(w, c_write_env(), setup=file_setup, hooks={'step-end': write_env_step, 'stmt': write_env_stmt})
+    return {'functions': [prop.discharge(res, tier, pid, _conc_pickle, _replay_persist)]}
